@@ -283,6 +283,32 @@ func extraPrograms() []*Prog {
 			add(term.Op("between", B, n(), m(), term.Const(c)))
 		}
 	}
+	// registered operators named like and / or / if up to letter case are strict
+	{
+		pb := func() *term.Term { return term.Op("p", B, b()) }
+		div0 := func() *term.Term { return term.Op("=", B, term.Op("/", I, term.Const(int64(1)), term.Const(int64(0))), term.Const(int64(1))) }
+		add(term.Op("AND", B, b(), b(), pb()))
+		add(term.Op("Or", B, b(), pb(), b()))
+		add(term.Op("AND", B, b(), div0()))
+		add(term.Op("Or", B, b(), term.Op("boom", B)))
+		add(term.Op("and", B, term.Op("Or", B, b(), pb()), b()))
+		add(term.Op("or", B, b(), term.Op("AND", B, pb(), b(), b())))
+		add(term.Op("not", B, term.Op("Or", B, term.Op("AND", B, b(), pb()), pb())))
+		add(term.Op("IF", I, b(), term.Op("g", I, n()), term.Op("g", I, n())))
+		add(term.Op("IF", B, b(), pb(), term.Op("boom", B)))
+		add(term.If(term.Op("AND", B, b(), pb()), term.Op("IF", I, b(), n(), term.Op("/", I, n(), term.Const(int64(0)))), n()))
+	}
+	// zero-operand registered operators as the push that takes the operand stack
+	// to each size around the evaluator's allocation classes (8, 16)
+	for _, dpt := range []int{6, 7, 8, 9, 14, 15, 16, 17, 18} {
+		pad := make([]*term.Term, dpt)
+		for k := range pad {
+			pad[k] = term.Const(int64(k))
+		}
+		add(term.Op("cat", I, append(append([]*term.Term{}, pad...), term.Op("i0", I))...))
+		add(term.Op("cat", I, append(append([]*term.Term{}, pad[:dpt-1]...), n(), term.Op("i0", I), term.Op("i0", I))...))
+		add(term.Op("last", B, append(append([]*term.Term{}, pad...), term.Op("and", B, term.Op("t0", B), b()))...))
+	}
 	// arithmetic folds over constants whose sums and products leave int64
 	// (wrap-around is the documented arithmetic; an optimiser that combines
 	// constants must wrap at the same places as operand-by-operand evaluation)
